@@ -124,6 +124,10 @@ theorem too_many_elements (c : Cfg) (tid : Nat) (count : Int) (packed : Bool) (s
     simp only [P.bind_def, hc, if_false, harr, Bool.false_eq_true, hsz, h, if_true]
     exact FailsWith.fail _
 
+/-- non-vacuity: 2^28 eight-byte values are one too many -/
+example : isArr 3 = false ∧ fixedSize 3 = .ok 8 ∧ (268435456 : Int) > INT_MAX / ((8 : Nat) : Int) :=
+  ⟨by decide, rfl, by decide⟩
+
 /-- a negative string length (names of metadata entries and properties) -/
 theorem negative_string_length (c : Cfg) (l : Int) (h32 : isInt32 l) (h : l < 0) :
     FailsWith (readString c) (le c l) .invalidSize ∧ FailsWith (skipString c) (le c l) .invalidSize := by
